@@ -33,3 +33,11 @@ Theorem C17_row_shape : forall T (N:Num T) (s:@stepobs T),
   length (r_total (mk_row s)) = length (s_gcs s) /\ length (r_gen (mk_row s)) = length (s_gcs s).
 Proof. intros. apply rows_shape. Qed.
 Print Assumptions C17_row_shape.
+
+(* ---- the executable (Q) instance that is run against /repo and the proof (R) instance agree (Transfer*.v) ---- *)
+From Coq Require Import QArith.
+From SV Require Import Transfer TransferAll ExecProps.
+Theorem C17_exec_steps_bounded : forall tbl eps (steps:list (@stepobs Q)),
+  (List.length (fst (@run Q (QNum tbl) eps steps)) <= List.length steps)%nat.
+Proof. exact run_exec_rows_bounded. Qed.
+Print Assumptions C17_exec_steps_bounded.
